@@ -197,6 +197,20 @@ impl TenantIndex {
         result
     }
 
+    /// the tenants indexed so far are announced (again): configs loaded before the namespace actor
+    /// was injected could not announce theirs
+    pub(crate) fn announce_all_tenants(&self) {
+        for tenant in self.tenant_group.keys() {
+            self.notify_namespace_change(
+                WeakNamespaceParam {
+                    namespace_id: tenant.clone(),
+                    from_type: WeakNamespaceFromType::Config,
+                },
+                false,
+            );
+        }
+    }
+
     fn notify_namespace_change(&self, param: WeakNamespaceParam, is_remove: bool) {
         if SYSCONFIG_NAMESPACE == param.namespace_id.as_str() {
             //历史系统命名空间跳过
